@@ -5,7 +5,13 @@ executed THREE times, each in a fresh interpreter (harness/c14_runner.py):
   run 1, run 2: same `set_random_seed(s)` and same library operations, but different torch /
                 numpy / `random` states before the seeding and different foreign numpy / `random`
                 draws interleaved between the library operations;
-  run 3       : run 1 with another seed.
+  run 3       : run 1 with other seeds (every seeding call of the history has a partner seed).
+Seeds are drawn from the whole range torch.manual_seed accepts, [-2^63, 2^64): small, >= 2^31, >= 2^32, >= 2^63,
+negative, boundary values, and partners that differ from the seed only in bit 31, only above bit 32, only in sign,
+or by 2^64.  What "a different seed" means is measured on torch itself, independently of qucumber
+(`torch_stream`): two seeds must give different draws exactly when `torch.Generator().manual_seed(a)` and
+`.manual_seed(b)` give different `torch.rand` streams (torch's mt19937 reads the low 32 bits of the seed word), and
+after `set_random_seed(s)` torch's CPU generator must be in exactly the state `torch.manual_seed(s)` produces.
 Checked: bitwise equality (sha1 of bytes) of all results and all parameters of run 1 vs run 2;
 parameters of every live object before/after each read-only operation; numpy / `random` states
 before/after each library operation; every seed-probe sample (k=0, >= 32 fair bits) of run 3
@@ -43,16 +49,23 @@ FILES = [
 ]
 REQUIRED_THEOREMS = ["C14_frame_rng", "C14_frame_rng_unchanged", "C14_seeded_determinism", "C14_read_only_step",
                      "C14_read_only", "C14_read_only_skeleton", "C14_draw_count", "C14_draw_count_closed_forms",
-                     "C14_different_seed_partial"]
+                     "C14_different_seed_partial", "C14_seed_accepted", "C14_seed_rejected", "C14_same_stream_same_results"]
 EXTRA_TRUSTED = [
     "C14 is PARTIAL: bit-identity across runs rests on the determinism of torch's CPU kernels (single thread) and "
     "'different seed => different draws' on torch's PRNG; both are only observed by the three-process replay, not proved",
+    "which seeds torch accepts ([-2^63, 2^64), reduced mod 2^64) and which accepted seeds have the same stream (equal low 32 bits of the "
+    "seed word) are facts about the installed torch: modelled in QV.Model.Frame (seedWord, tokenSem.mix) and re-measured in every run on a "
+    "private torch.Generator (harness/c14.py torch_stream), independently of qucumber",
     "the C14 model is a frame model (which generator / which parameters each operation touches, how many elements it draws); "
     "values are uninterpreted; the recorders in harness/c14_runner.py (pass-through wrappers of torch.bernoulli/randn/"
     "randperm/randint/rand/manual_seed, sha1 of parameter and generator-state bytes) are trusted",
 ]
 RULE = ("case = one history: [different per-run prefix: foreign numpy/random seeding, torch draws, optionally an unseeded "
-        "junk object] + set_random_seed(s) + 8..16 library operations drawn from {construct x3 kinds, reinit, sample "
+        "junk object] + set_random_seed(s) with s from the WHOLE range torch accepts (classes <2^31, <2^32, <2^63, <2^64, negative, boundary "
+        "values; gpu=True on 30%) and, for run 3, a partner seed (unrelated / differing only in bit 31 / only above bit 32 / only in sign / by 2^64 / "
+        "equal mod 2^31 / adjacent); every second history re-seeds in mid-history, every fourth calls set_random_seed(cpu=False) (also with "
+        "values torch refuses); plus seed-sweep histories of 10..14 seedings each followed by a probe and a construct / reinit / sample / fit, "
+        "and refused seeds (2^64, -2^63-1) in the malformed history; then 8..16 library operations drawn from {construct x3 kinds, reinit, sample "
         "(with/without initial state, k=0 seed probes), Observable/System.statistics, fit (random epochs, batch sizes, k, "
         "optimizer, bases for complex/mixed), eval, metrics (fidelity/KL/NLL), rotate_*, gradient methods, "
         "compute_batch_gradients, save, load} with foreign numpy/random draws interleaved differently per run, plus fixed "
@@ -61,6 +74,101 @@ RULE = ("case = one history: [different per-run prefix: foreign numpy/random see
         "(kind cycling pos/cplx/dens), every third one builds an unseeded object before the seeding (parameters compared "
         "from slot b=1); non-trivial iff it contains a fit and (a statistics call or a save/load pair or >= 2 state kinds) "
         "and runs 1 and 2 each contain >= 2 foreign operations; distinct by hash of the three op lists")
+
+SEED_LO, SEED_HI = -2 ** 63, 2 ** 64  # torch.manual_seed accepts LO <= s < HI (established on the clean tree, re-measured below)
+SEED_SPECIALS = [0, 1, 2 ** 31 - 1, 2 ** 31, 2 ** 32 - 1, 2 ** 32, 2 ** 40, 2 ** 63 - 1, 2 ** 63, 2 ** 64 - 1, -1, -2 ** 31, -2 ** 63]
+_STREAMS = {}
+
+
+def torch_stream(s):
+    """what torch ITSELF does with the seed `s`, measured on a private torch.Generator (never through qucumber, never
+    touching a global generator): None if torch refuses the value, else the hash of the generator state right after
+    seeding (same formula as the runner's rng hash), the first 64 doubles of its `torch.rand` stream, and the seed word"""
+    if s not in _STREAMS:
+        import hashlib
+
+        import torch
+
+        g = torch.Generator()
+        try:
+            g.manual_seed(s)
+        except (ValueError, RuntimeError, OverflowError, TypeError) as e:
+            _STREAMS[s] = {"refused": type(e).__name__}
+        else:
+            _STREAMS[s] = {"state": hashlib.sha1(g.get_state().numpy().tobytes()).hexdigest()[:20], "word": g.initial_seed(),
+                           "draws": hashlib.sha1(torch.rand(64, generator=g, dtype=torch.double).numpy().tobytes()).hexdigest()}
+    return _STREAMS[s]
+
+
+def seed_ok(s):
+    return "refused" not in torch_stream(s)
+
+
+def same_stream(a, b):
+    """torch's own answer to 'are a and b the same seed as far as the draws are concerned'"""
+    return torch_stream(a)["draws"] == torch_stream(b)["draws"]
+
+
+def seed_class(s):
+    if s < 0:
+        return "negative"
+    for name, hi in (("<2^31", 2 ** 31), ("<2^32", 2 ** 32), ("<2^63", 2 ** 63), ("<2^64", 2 ** 64)):
+        if s < hi:
+            return name
+    return ">=2^64"
+
+
+def gen_seed(rng):
+    """a seed from the whole accepted range"""
+    c = rng.random()
+    if c < 0.2:
+        return rng.randint(0, 2 ** 31 - 1)
+    if c < 0.35:
+        return rng.randint(2 ** 31, 2 ** 32 - 1)
+    if c < 0.5:
+        return rng.randint(2 ** 32, 2 ** 63 - 1)
+    if c < 0.6:
+        return rng.randint(2 ** 63, 2 ** 64 - 1)
+    if c < 0.8:
+        return -rng.randint(1, 2 ** 63)
+    return rng.choice(SEED_SPECIALS)
+
+
+def gen_partner(rng, s):
+    """a seed != s for run 3: unrelated, or differing from s only in bit 31 / only above bit 32 (same torch stream) / only in
+    sign / by 2^64 (same seed word) / equal to s modulo 2^31 / adjacent"""
+    while True:
+        c = rng.random()
+        if c < 0.25:
+            t = gen_seed(rng)
+        elif c < 0.45:
+            t = s + (2 ** 31 if (s >> 31) % 2 == 0 else -2 ** 31)
+        elif c < 0.6:
+            t = s + rng.choice([1, -1]) * 2 ** rng.choice([32, 33, 40, 62, 63])
+        elif c < 0.7:
+            t = -s
+        elif c < 0.78:
+            t = s + rng.choice([1, -1]) * 2 ** 64
+        elif c < 0.9:
+            t = s % 2 ** 31 if s % 2 ** 31 != s else s + 2 ** 31 * rng.randint(1, 3)
+        else:
+            t = s + rng.choice([1, -1, 2, 2 ** 16])
+        if t != s and SEED_LO <= t < SEED_HI:
+            return t
+
+
+def seed_op(rng, cpu=True):
+    s = gen_seed(rng)
+    op = {"t": "setSeed", "s": s, "cpu": cpu, "alt": gen_partner(rng, s)}
+    if rng.random() < 0.3:
+        op["gpu"] = True  # no CUDA device in this process: must neither raise nor seed anything else
+    return op
+
+
+def alt_run(ops, seed_at):
+    """run 3: the same operations with every seeding call from `seed_at` on replaced by its partner seed"""
+    return [dict(o, s=o["alt"], alt=o["s"]) if (i >= seed_at and o["t"] == "setSeed" and "alt" in o) else o for i, o in enumerate(ops)]
+
 
 READ_ONLY = {"sample", "statistics", "eval", "metric", "rotate", "gradient", "batchGradient", "save"}
 THM_DET = "C14_seeded_determinism / C14_frame_rng"
@@ -104,7 +212,9 @@ def model_op(op, kinds):
     if t == "ext":
         w = op["what"]
         return {"t": w, **({"s": op["s"]} if "s" in op else {"m": op["m"]})}
-    if t in ("burn", "setSeed", "reinit", "save", "load"):
+    if t == "setSeed":
+        return {"t": t, "s": op["s"], "cpu": op["cpu"]}  # `gpu` has no effect on a process without CUDA
+    if t in ("burn", "reinit", "save", "load"):
         return dict(op)
     if t == "construct":
         return {"t": t, "kind": op["kind"], "n": op["n"], "h": op["h"], "a": op.get("a")}
@@ -281,10 +391,7 @@ def interleave(rng, core, lo=2):
 
 def gen_history(rng, idx):
     """returns the case: three explicit op lists + the slot `b` from which parameters are compared"""
-    s = rng.randint(0, 2 ** 31 - 1)
-    s2 = s
-    while s2 == s:
-        s2 = rng.randint(0, 2 ** 31 - 1)
+    main = seed_op(rng)
     junk = idx % 3 == 2  # an unseeded object built before the seeding (slot 0, never addressed later)
     b = 1 if junk else 0
     core = []
@@ -310,7 +417,16 @@ def gen_history(rng, idx):
             slot = min(cons) if w is not None else rng.choice(sorted(cons))
             core.append(gen_lib_op(rng, slot, cons[slot], files, w))
     if idx % 4 == 1:
-        core.insert(rng.randint(3, len(core)), {"t": "setSeed", "s": rng.randint(0, 99), "cpu": False})
+        # cpu=False: not a seeding of the CPU generator, whatever the value (even one torch would refuse) and whatever `gpu`
+        op = seed_op(rng, cpu=False)
+        if rng.random() < 0.3:
+            op["s"] = rng.choice([2 ** 64, -2 ** 63 - 1, 2 ** 70 + 3])
+            op["alt"] = op["s"] + 1
+        core.insert(rng.randint(3, len(core)), op)
+    if idx % 2 == 0:
+        # a second seeding in mid-history (runs 1, 2: the same seed; run 3: its partner), followed by a probe
+        at = rng.randint(3, len(core))
+        core[at:at] = [seed_op(rng), probe(min(cons), cons[min(cons)]["n"])]
     if idx % 5 == 3:
         core.insert(rng.randint(3, len(core)), {"t": "burn", "m": rng.randint(1, 9)})
     for slot in sorted(cons):
@@ -320,16 +436,58 @@ def gen_history(rng, idx):
         pre = [{"t": "ext", "what": "seedNumpy", "s": rng.randint(0, 2 ** 31 - 1)},
                {"t": "ext", "what": "seedPy", "s": rng.randint(0, 2 ** 31 - 1)}]
         if rng.random() < 0.5:
-            pre.append({"t": "setSeed", "s": rng.randint(0, 2 ** 31 - 1), "cpu": True})
+            pre.append({"t": "setSeed", "s": gen_seed(rng), "cpu": True})
         pre.append({"t": "burn", "m": rng.randint(1, 50)})
         if junk:
             pre.append({"t": "construct", "kind": "pos", "n": 2, "h": 2, "a": None})
         pre += [gen_ext(rng) for _ in range(rng.randint(0, 2))]
         runs.append({"pre": pre, "body": interleave(rng, core)})
-    ops = [runs[0]["pre"] + [{"t": "setSeed", "s": s, "cpu": True}] + runs[0]["body"],
-           runs[1]["pre"] + [{"t": "setSeed", "s": s, "cpu": True}] + runs[1]["body"],
-           runs[0]["pre"] + [{"t": "setSeed", "s": s2, "cpu": True}] + runs[0]["body"]]
+    ops = [runs[0]["pre"] + [main] + runs[0]["body"],
+           runs[1]["pre"] + [main] + runs[1]["body"]]
+    ops.append(alt_run(ops[0], len(runs[0]["pre"])))
     return {"name": f"h{idx}", "runs": ops, "b": b, "seed_at": [len(runs[0]["pre"]), len(runs[1]["pre"]), len(runs[0]["pre"])]}
+
+
+def gen_seed_sweep(rng, idx):
+    """a history that is mostly seeding calls: 10..14 seedings from the whole seed range (each with a partner for run 3), every one
+    followed by a k=0 probe and a construction / re-initialisation / Gibbs sample / small fit, so that initialisation, samples and
+    trained parameters are compared between seeds that torch distinguishes and between seeds that torch identifies"""
+    kind = ["pos", "cplx", "dens"][idx % 3]
+    c0 = gen_construct(rng, kind)
+    core = [c0, probe(0, c0["n"])]
+    cons, files = {0: c0}, {}
+    fixed_pairs = [(7, 7 + 2 ** 31), (0, 2 ** 31), (2 ** 31 + 2 ** 30 + 11, 2 ** 30 + 11), (5, -5), (-1, 2 ** 31 - 1), (3, 3 + 2 ** 32),
+                   (2 ** 63 - 1, 2 ** 31 - 1), (-1, 2 ** 64 - 1), (2 ** 40, 0), (2 ** 63, -2 ** 63)]
+    rng.shuffle(fixed_pairs)
+    for j in range(rng.randint(10, 14)):
+        op = seed_op(rng)
+        if j % 2 == 0:
+            a, b = fixed_pairs[(j // 2) % len(fixed_pairs)]
+            if rng.random() < 0.5:
+                a, b = b, a
+            op["s"], op["alt"] = a, b
+        core.append(op)
+        slot = rng.choice(sorted(cons))
+        core.append(probe(slot, cons[slot]["n"]))
+        what = ["construct", "reinit", "sample", "fit", "burn"][j % 5]
+        if what == "construct" and len(cons) < 3:
+            c = gen_construct(rng)
+            cons[len(cons)] = c
+            core.append(c)
+        elif what == "burn":
+            core.append({"t": "burn", "m": rng.randint(1, 9)})
+        else:
+            core.append(gen_lib_op(rng, slot, cons[slot], files, what if what != "construct" else "sample"))
+        core.append(probe(slot, cons[slot]["n"]))
+    runs = []
+    for r in range(2):
+        pre = [{"t": "ext", "what": "seedNumpy", "s": rng.randint(0, 2 ** 31 - 1)}, {"t": "ext", "what": "seedPy", "s": rng.randint(0, 2 ** 31 - 1)},
+               {"t": "burn", "m": rng.randint(1, 50)}]
+        runs.append({"pre": pre, "body": interleave(rng, core)})
+    main = seed_op(rng)
+    ops = [runs[0]["pre"] + [main] + runs[0]["body"], runs[1]["pre"] + [main] + runs[1]["body"]]
+    ops.append(alt_run(ops[0], len(runs[0]["pre"])))
+    return {"name": f"sweep{idx}", "runs": ops, "b": 0, "seed_at": [3, 3, 3]}
 
 
 def malformed_histories():
@@ -353,14 +511,20 @@ def malformed_histories():
         {"t": "fit", "slot": 1, "data": [[0.0, 1.0, 1.0]] * 5, "bases": None, "epochs": 2, "start": 1, "posB": 7,
          "negB": 0, "k": 2, "lr": 0.1, "optimizer": "SGD"},                                # negB=0 -> posB, posB > N
         probe(0, 2), probe(1, 3),
+        {"t": "setSeed", "s": 2 ** 64, "cpu": True},                                       # torch refuses: ValueError, nothing is seeded
+        probe(0, 2),
+        {"t": "setSeed", "s": -2 ** 63 - 1, "cpu": True, "gpu": True},
+        {"t": "setSeed", "s": 2 ** 64 + 5, "cpu": False, "gpu": True},                     # cpu=False: torch is never asked
+        {"t": "setSeed", "s": -2 ** 63, "cpu": True, "alt": 2 ** 63},                      # smallest accepted seed = the seed word 2^63
+        probe(1, 3),
+        {"t": "setSeed", "s": 2 ** 64 - 1, "cpu": True, "alt": -1}, probe(0, 2),           # largest accepted seed = -1
     ]
     pre1 = [{"t": "ext", "what": "seedNumpy", "s": 1}, {"t": "burn", "m": 3}]
     pre2 = [{"t": "ext", "what": "seedPy", "s": 2}, {"t": "burn", "m": 11}, {"t": "ext", "what": "perturbNumpy", "m": 5}]
     body1 = core[:4] + [{"t": "ext", "what": "perturbPy", "m": 3}] + core[4:]
     body2 = core[:2] + [{"t": "ext", "what": "perturbNumpy", "m": 2}] + core[2:9] + [{"t": "ext", "what": "seedPy", "s": 5}] + core[9:]
-    sd = {"t": "setSeed", "s": 1234, "cpu": True}
-    sd2 = {"t": "setSeed", "s": 4321, "cpu": True}
-    return [{"name": "malformed", "runs": [pre1 + [sd] + body1, pre2 + [sd] + body2, pre1 + [sd2] + body1], "b": 0,
+    sd = {"t": "setSeed", "s": 1234, "cpu": True, "alt": 4321}
+    return [{"name": "malformed", "runs": [pre1 + [sd] + body1, pre2 + [sd] + body2, alt_run(pre1 + [sd] + body1, len(pre1))], "b": 0,
              "seed_at": [len(pre1), len(pre2), len(pre1)]}]
 
 
@@ -423,6 +587,8 @@ def check_case(ctx, case, impl):
         ctx.count("op=" + o["t"] + (":" + o["what"] if o["t"] in ("ext", "metric", "rotate", "gradient", "eval") else ""))
         if o["t"] == "construct":
             ctx.count("kind=" + o["kind"])
+        if o["t"] == "setSeed":
+            ctx.count(f"seed_class={seed_class(o['s'])}/cpu={o['cpu']}" + ("/gpu" if o.get("gpu") else ""))
         if o["t"] == "fit":
             ctx.count("fit_optimizer=" + o["optimizer"])
             ctx.count("fit_negB=" + ("default" if not o["negB"] else ("same" if o["negB"] == o["posB"] else "different")))
@@ -442,6 +608,23 @@ def check_case(ctx, case, impl):
             if op["t"] in READ_ONLY:
                 ctx.oracle("read-only op leaves all parameters unchanged", not changed, ccase,
                            detail={"changed_slots": changed, "op": where["op"]}, sig=f"read-only/{op['t']}", theorem=THM_RO)
+            # property oracle (independent of the model): the seeding call hands the seed to torch as it is
+            if op["t"] == "setSeed":
+                ref = torch_stream(op["s"])
+                unchanged = rec["rng_before"]["torch"] == rec["rng_after"]["torch"]
+                if not op["cpu"]:
+                    ok = unchanged and rec["out"]["kind"] == "none" and not rec["seeds"]
+                    what = "set_random_seed(cpu=False) neither touches torch's CPU generator nor raises (any seed, gpu on or off)"
+                elif "refused" in ref:
+                    ok = unchanged and rec["out"]["kind"] == "err" and rec["out"].get("error") == ref["refused"]
+                    what = "set_random_seed(s) with a value torch.manual_seed refuses raises the same error and seeds nothing"
+                else:
+                    ok = rec["out"]["kind"] == "none" and rec["rng_after"]["torch"] == ref["state"]
+                    what = "after set_random_seed(s) torch's CPU generator is in exactly the state torch.manual_seed(s) produces"
+                ctx.oracle(what, ok, ccase, detail={"seed": op["s"], "cpu": op["cpu"], "gpu": op.get("gpu", False), "result": rec["out"],
+                                                    "state_after": rec["rng_after"]["torch"], "torch_reference": ref,
+                                                    "state_unchanged": unchanged, "seeding_calls": rec["seeds"]},
+                           sig=f"seeding/{'cpu' if op['cpu'] else 'nocpu'}/{seed_class(op['s'])}", theorem="C14_seed_accepted / C14_seed_rejected")
             # result kinds of the error cases actually raise what is expected to be raised
             if model is not None:
                 m = model[r]["trace"][i]
@@ -516,9 +699,12 @@ def check_case(ctx, case, impl):
         for r in range(3):
             tr = [t["out"] for t in model[r]["trace"] if not t["external"]]
             ctx.point("run = trace", "aux", tr, model[r]["outs"], ccase, exact=True, sig="model/run-vs-trace")
-            ctx.point("position of torch's stream = sum of draws since the seeding", "aux", model[r]["final_torch"][1],
-                      sum(t["draws"] for t in model[r]["trace"][case["seed_at"][r] + 1:]), ccase, exact=True,
+            last = max(i for i, o in enumerate(runs[r]) if o["t"] == "setSeed" and o["cpu"] and seed_ok(o["s"]))
+            ctx.point("position of torch's stream = sum of draws since the last accepted seeding", "aux", model[r]["final_torch"][1],
+                      sum(t["draws"] for t in model[r]["trace"][last + 1:]), ccase, exact=True,
                       sig="model/hist-draws", theorem="C14_draw_count")
+            ctx.point("seed word of torch's generator = the last accepted seed modulo 2^64", "aux", model[r]["final_torch"][0],
+                      torch_stream(runs[r][last]["s"])["word"], ccase, exact=True, sig="model/seed-word", theorem="C14_seed_accepted")
         # equality pattern: wherever the model's tokens coincide (across runs 1 and 2 and within a run), the bytes coincide
         tok_par, tok_res = {}, {}
         for r in range(2):
@@ -538,21 +724,66 @@ def check_case(ctx, case, impl):
                   theorem=THM_DET)
         ctx.count("distinct_param_tokens", len(tok_par))
 
-    # ---------- run 3: another seed gives other draws
-    probes = [(i1, i3) for i1, i3 in zip(L[0], L[2]) if runs[0][i1].get("probe")]
-    same = [i1 for i1, i3 in probes
-            if impl[0]["records"][i1]["out"].get("hash") == impl[2]["records"][i3]["out"].get("hash")]
-    ctx.oracle("a different seed yields different draws (every k=0 sample probe of >= 32 fair bits differs)",
-               bool(probes) and not same, ccase, detail={"identical_probe_indices": same, "probes": len(probes)},
-               sig="different-seed/probe", theorem="C14_different_seed_partial (not proved: streams of different seeds differ)")
-    samples = [(i1, i3) for i1, i3 in zip(L[0], L[2]) if runs[0][i1]["t"] == "sample" and runs[0][i1].get("init") is None]
-    ctx.oracle("a different seed changes at least one drawn sample",
-               any(impl[0]["records"][i1]["out"] != impl[2]["records"][i3]["out"] for i1, i3 in samples), ccase,
-               sig="different-seed/any-sample")
+    # ---------- run 3: other seeds give other draws — exactly when torch's own streams for the two seeds differ
+    # `cur`: the seeds in force in runs 1 and 3 (last accepted cpu seeding); `eq_so_far`: every seeding so far paired seeds with the
+    # same torch stream (then run 3 must be bit-identical to run 1: results depend on the seed through its stream only)
+    if len(L[0]) != len(L[2]):
+        raise InternalError("generator bug: library parts of runs 1 and 3 differ")
+    cur = (runs[0][case["seed_at"][0]]["s"], runs[2][case["seed_at"][2]]["s"])  # the seeding call that starts the compared part
+    eq_so_far = same_stream(*cur)
+    n_diff = n_same = 0
+    bad_same, bad_diff, bad_equal = [], [], []
+    m_same_probe, i_same_probe = [], []
+    any_sample_differs = False
+    for i1, i3 in zip(L[0], L[2]):
+        o1, o3 = runs[0][i1], runs[2][i3]
+        if o1["t"] == "setSeed" and o1["cpu"] and seed_ok(o1["s"]) and seed_ok(o3["s"]):
+            cur = (o1["s"], o3["s"])
+            eq_so_far = eq_so_far and same_stream(*cur)
+            ctx.count("seed_pair=" + ("same-word" if torch_stream(cur[0])["word"] == torch_stream(cur[1])["word"] else
+                                      "same-stream" if same_stream(*cur) else
+                                      "same-mod-2^31" if (cur[0] - cur[1]) % 2 ** 31 == 0 else "other"))
+            continue
+        a, c = impl[0]["records"][i1], impl[2]["records"][i3]
+        oa = {k2: v for k2, v in a["out"].items() if k2 != "msg"}
+        oc = {k2: v for k2, v in c["out"].items() if k2 != "msg"}
+        info = {"lib_index_run1": i1, "seeds": list(cur), "op": {k2: v for k2, v in o1.items() if k2 not in ("data", "target")}}
+        if eq_so_far and (oa != oc or a["params_after"][b:] != c["params_after"][b:]):
+            bad_equal.append(info)
+        if o1["t"] == "sample" and o1.get("init") is None and oa != oc:
+            any_sample_differs = True
+        if o1.get("probe"):
+            same = oa.get("hash") == oc.get("hash")
+            if same:
+                i_same_probe.append(i1)
+            if same_stream(*cur):
+                n_same += 1
+                if not same:
+                    bad_same.append(info)
+            else:
+                n_diff += 1
+                if same:
+                    bad_diff.append(info)
+            # a k=0 probe returns the drawn Bernoulli(1/2) start configuration itself: the model's token of the drawn values
+            if model is not None and model[0]["trace"][i1]["drawn"] == model[2]["trace"][i3]["drawn"]:
+                m_same_probe.append(i1)
+    ctx.oracle("a different seed yields different draws: every k=0 sample probe (>= 32 fair bits) after a seeding differs between two "
+               "seeds whose torch streams differ (torch.Generator().manual_seed(a) vs (b), measured independently of the library)",
+               not bad_diff, ccase, detail={"identical_probes": bad_diff[:4], "probes_with_different_streams": n_diff},
+               sig="different-seed/probe", theorem="C14_different_seed_partial (not proved: streams of different seed words differ)")
+    ctx.oracle("seeds that torch itself maps to the same stream give the same draws (probe by probe)", not bad_same, ccase,
+               detail={"differing_probes": bad_same[:4], "probes_with_equal_streams": n_same}, sig="different-seed/same-stream-probe",
+               theorem="C14_same_stream_same_results")
+    ctx.oracle("while all seedings so far used seeds with the same torch stream, run 3 is bit-identical to run 1 (results and parameters)",
+               not bad_equal, ccase, detail={"first_differences": bad_equal[:3]}, sig="different-seed/same-stream-run",
+               theorem="C14_same_stream_same_results")
+    if n_diff:
+        ctx.oracle("a different seed changes at least one drawn sample", any_sample_differs, ccase, sig="different-seed/any-sample")
     if model is not None:
-        m_same = [i1 for i1, i3 in probes if model[0]["trace"][i1]["out"] == model[2]["trace"][i3]["out"]]
-        ctx.point("probes identical across seeds", "aux", same, m_same, ccase, exact=True, sig="different-seed/model")
-    ctx.count("seed_probes", len(probes))
+        ctx.point("probes identical across seeds", "aux", i_same_probe, m_same_probe, ccase, exact=True, sig="different-seed/model",
+                  theorem="C14_same_stream_same_results")
+    ctx.count("seed_probes_different_stream", n_diff)
+    ctx.count("seed_probes_same_stream", n_same)
 
 
 def first_two_run_diff(case, impl):
@@ -606,21 +837,22 @@ def run_cases(ctx, cases):
         check_case(ctx, case, impl)
 
 
-def gen_cases(ctx, count):
-    return [gen_history(ctx.rng, i) for i in range(count)] + malformed_histories()
+def gen_cases(ctx, count, sweeps=1):
+    return ([gen_history(ctx.rng, i) for i in range(count)] + [gen_seed_sweep(ctx.rng, i) for i in range(sweeps)]
+            + malformed_histories())
 
 
 def run(ctx):
     ctx.rule = RULE
     count = 60 if ctx.tier == "thorough" else 5
-    run_cases(ctx, gen_cases(ctx, count))
+    run_cases(ctx, gen_cases(ctx, count, sweeps=6 if ctx.tier == "thorough" else 1))
 
 
 def search(ctx):
     """oracle-only sweep (no model) used when a proof obligation or an auxiliary point is broken"""
     drv, ctx.driver = ctx.driver, None
     try:
-        run_cases(ctx, [gen_history(ctx.rng, 1000 + i) for i in range(12)])
+        run_cases(ctx, [gen_history(ctx.rng, 1000 + i) for i in range(12)] + [gen_seed_sweep(ctx.rng, 1000 + i) for i in range(3)])
     finally:
         ctx.driver = drv
 
